@@ -341,6 +341,23 @@ m("c18-const-input-scribble", "C18", POLYFILL,
     return iterErr;""",
   "polygonToCellsExperimental: caller's const polygon modified for a few dozen instructions at the END of the call and restored (visible only to a concurrent reader of the same polygon inside that window)", None)
 
+m("c18-const-input-flicker", "C18", H3INDEX,
+  """    int res = H3_GET_RESOLUTION(h3Set[0]);
+    if (res == 0) {
+        // No compaction possible, just copy the set to output""",
+  """    // the first element doubles as a scratch slot for three straight-line instructions (no branch, hence no
+    // preemption point of an edge-level scheduler in between) and is restored bit for bit
+    volatile H3Index *scratch = (volatile H3Index *)h3Set;
+    H3Index keep = scratch[0];
+    scratch[0] = keep >> 52;
+    int res = (int)(scratch[0] & 0xF);
+    scratch[0] = keep;
+    if (res == 0) {
+        // No compaction possible, just copy the set to output""",
+  "compactCells: caller's const cell array used as scratch for three straight-line instructions and restored "
+  "(no control-flow edge inside the window: invisible to result comparison under an edge-level scheduler; only the "
+  "write-trap on const inputs sees it)", "I2-const-input-write")
+
 m("c18-mutex-protected-cache", "C18", MATHX,
   """int64_t _ipow(int64_t base, int64_t exp) {
     int64_t result = 1;""",
